@@ -18,7 +18,9 @@ RULE = ("'table': all 118 elements (exhaustive) - symbol, IUPAC name, Z = index+
         "mass is summed with Fractions from the AST composition and the table column relative_atomic_masses (itself judged "
         "by 'table'), the electron term only has to lie in the stated interval.  'metamorphic': hydrate additivity, group "
         "scaling, ion-vs-neutral on formulas assembled from neutral G1 bodies.  'fractions': mixtures of 1-6 distinct G1 "
-        "formulas with positive integer/float coefficients (dict) or unit multiplicity (set); 'fractions_args': the same "
+        "formulas with positive integer/float coefficients (dict) or unit multiplicity (set), a third of them with components "
+        "of exactly equal coefficient*mass (same compound under two keys, X vs (X)n at n:1, allotropes at inverse ratio); "
+        "'fractions_args': the same "
         "mixtures with the substances= mapping (permuted key order, unrelated extra entries, dict/OrderedDict, keys = "
         "formula or label) or a substance_factory=.  'shared_data': a short history - several substances created with "
         "one shared free-form data dict (or own / none), masses and mass fractions read repeatedly and in generated "
@@ -391,6 +393,65 @@ def call_variants(draw, n):
             "positional": draw(st.booleans())}
 
 
+def _variant(draw, f):
+    """The same compound under another key: suffix, prefix, primes or hydrate separator changed - composition untouched."""
+    import copy
+    g = copy.deepcopy(f)
+    ways = ["suffix"]
+    if not f.get("electron"):
+        ways += ["prefix", "primes"]
+        if len(f["parts"]) > 1:
+            ways.append("hyd")
+    how = draw(st.sampled_from(ways))
+    if how == "suffix":
+        g["suffix"] = draw(st.sampled_from([x for x in ("(l)", "(g)", "(s)", "(aq)", "") if x != f["suffix"]]))
+    elif how == "prefix":
+        g["prefix"] = draw(st.sampled_from([x for x in (".", "alpha-", "beta-", "") if x != f["prefix"]]))
+    elif how == "primes":
+        last = g["parts"][0]["terms"][-1]
+        last["primes"] = draw(st.sampled_from([x for x in ("*", "'", "**", "") if x != last["primes"]]))
+    else:
+        g["hyd"] = u"\u00b7" if f["hyd"] == ".." else ".."
+    return g
+
+
+def _add_twins(draw, kind, items):
+    """Components whose coefficient*mass is *exactly* that of another component (or whose mass is): the same compound
+    under a second key, a species next to its n-fold multiple (X)n in proportion n:1, two allotropes E_a, E_b in
+    proportion b:a.  Appended to / substituted in `items`; the case stays a plain list of formulas and coefficients."""
+    how = draw(st.sampled_from(["variant", "multiple", "allotropes"] if kind != "set" else ["variant"]))
+    i = draw(st.integers(0, len(items) - 1))
+    it = items[i]
+    if how == "multiple" and it["f"].get("electron"):
+        how = "variant"                     # the bare electron has no body to put in brackets
+    if how == "variant":
+        c = it["c"]
+        if kind != "set" and draw(st.integers(0, 3)) == 3:      # equal mass, another amount
+            c = draw(st.integers(1, 20)) if kind == "dict_int" else draw(st.integers(1, 40)) / 2.0
+        items.append({"f": _variant(draw, it["f"]), "c": c})
+        if draw(st.integers(0, 3)) == 3:                       # a third key for the same compound
+            items.append({"f": _variant(draw, it["f"]), "c": it["c"]})
+    elif how == "multiple":
+        n = draw(st.sampled_from([2, 2, 4, 3, 8, 5, 6, 12]))
+        base = _neutral(it["f"], keep_parts=False)
+        br = draw(st.sampled_from(["(", "(", "[", "{"]))
+        grp = dict(base)
+        grp["parts"] = [{"n": 1, "terms": [{"br": br, "terms": base["parts"][0]["terms"], "count": str(n), "primes": ""}]}]
+        c = draw(st.integers(1, 20)) if kind == "dict_int" else draw(st.integers(1, 40)) / 2.0
+        items[i] = {"f": base, "c": c * n}
+        items.append({"f": grp, "c": c})
+    else:
+        el = draw(st.sampled_from(["O", "S", "P", "C", "N", "H"])) if draw(st.booleans()) else draw(st.sampled_from(SYMBOLS))
+        a = draw(st.integers(1, 8))
+        b = draw(st.integers(1, 7))
+        b = b if b < a else b + 1                               # b != a
+        k = draw(st.integers(1, 5)) if kind == "dict_int" else draw(st.integers(1, 10)) / 2.0
+        mk = lambda m: {"prefix": "", "parts": [{"n": 1, "terms": [{"el": el, "count": "" if m == 1 else str(m), "primes": ""}]}],   # noqa: E731
+                        "hyd": "..", "charge": None, "suffix": "", "electron": False}
+        items.append({"f": mk(a), "c": b * k})
+        items.append({"f": mk(b), "c": a * k})
+
+
 @st.composite
 def mixtures(draw, with_call=False):
     n = draw(st.integers(1, 6))
@@ -405,9 +466,13 @@ def mixtures(draw, with_call=False):
         else:
             c = 1
         items.append({"f": f, "c": c})
+    if draw(st.integers(0, 9)) >= 6:         # measured: a third of the evaluated mixtures get such components
+        _add_twins(draw, kind, items)
+        if draw(st.integers(0, 4)) == 4:
+            _add_twins(draw, kind, items)
     case = {"kind": kind, "items": items}
     if with_call:
-        case["call"] = draw(call_variants(n))
+        case["call"] = draw(call_variants(len(items)))
     return case
 
 
@@ -430,7 +495,7 @@ def judge_fractions(ctx, got, stoich, comps, ram, **where):
             return False
         ctx.require(v > 0, "fraction_not_positive", key=k, got=v, **where)
     total = sum(Fraction(v) for v in got.values())
-    # n <= 6 quotients, each within 2 ulp of c*m/T with the same float T: |sum - 1| <= 6*2*2**-53 < 1e-12
+    # n <= 12 quotients, each within 2 ulp of c*m/T with the same float T: |sum - 1| <= 12*2*2**-53 < 1e-12
     ok = abs(total - 1) <= Fraction(1, 10 ** 12)
     ctx.require(ok, "fractions_do_not_sum_to_one", total=float(total), keys=sorted(keys), **where)
     # proportional to coefficient*mass: the electron constant is only known to ME_TOL, which gives each c_i*m_i the
@@ -478,6 +543,14 @@ def check_fractions(case, ctx):
     ctx.nontrivial(nontriv and len(entries) >= 2)
     stoich = {k: c for k, _, _, c in entries}
     comps = {k: G.composition(f) for k, _, f, _ in entries}
+    # components with exactly equal coefficient*mass / equal mass, by the reference model (labels only)
+    exact = {}
+    for k in stoich:
+        base, _, z = ref_mass_parts(comps[k], ram)
+        exact[k] = (base, z)
+    contrib = [(Fraction(stoich[k]) * exact[k][0], Fraction(stoich[k]) * exact[k][1]) for k in stoich]
+    ctx.label("equal_contributions" if len(set(contrib)) < len(contrib) else
+              "equal_masses_only" if len(set(exact.values())) < len(exact) else "contributions_distinct")
     if case["kind"] == "set":
         arg = set(stoich)
     else:
@@ -685,7 +758,10 @@ SUBCHECKS = [
                   "mass(A^z)-mass(A)=-z m_e for two charges z1, z2 with one constant",
              tolerances={"float_sum_rel_to_sum_abs_terms": float(REL_SUM), "electron_mass_u": [float(ME_LO), float(ME_HI)]}),
     SubCheck("fractions", check_fractions, strategy=mixtures(), quick=600, thorough=30000,
-             rule="1-6 distinct G1 formulas, coefficients int 1..1e6 / positive floats / set (unit multiplicity)",
+             rule="1-6 distinct G1 formulas, coefficients int 1..1e6 / positive floats / set (unit multiplicity); in a third "
+                  "of the cases plus components with exactly equal coefficient*mass (or equal mass): the same compound "
+                  "under another key (suffix, prefix, primes, hydrate separator), X and (X)n in proportion n:1, "
+                  "allotropes E_a, E_b in proportion b:a",
              tolerances={"sum_to_one_abs": 1e-12, "proportional_rel": 1e-12}),
     SubCheck("fractions_args", check_fractions, strategy=mixtures(with_call=True), quick=600, thorough=15000,
              rule="the same mixtures through the other two parameters of mass_fractions: substances= a dict/OrderedDict "
